@@ -201,16 +201,28 @@ impl Slatepack {
 
 		let decryptor = match age::Decryptor::new(&self.payload[..])? {
 			age::Decryptor::Recipients(d) => d,
-			_ => unreachable!(),
+			_ => {
+				return Err(Error::SlatepackDecryption(
+					"Payload is not encrypted to a recipient key".into(),
+				))
+			}
 		};
 		let mut decrypted = vec![];
 		let mut reader = decryptor.decrypt(std::iter::once(&key as &dyn age::Identity))?;
 		reader.read_to_end(&mut decrypted)?;
 		// Parse encrypted metadata from payload, first 4 bytes of decrypted payload
 		// will be encrypted metadata length
+		if decrypted.len() < 4 {
+			return Err(Error::SlatepackDeser("Decrypted payload too short".into()));
+		}
 		let mut len_bytes = [0u8; 4];
 		len_bytes.copy_from_slice(&decrypted[0..4]);
 		let meta_len = Cursor::new(len_bytes).read_u32::<BigEndian>()?;
+		if meta_len as usize > decrypted.len() - 4 {
+			return Err(Error::SlatepackDeser(
+				"Encrypted metadata length exceeds payload".into(),
+			));
+		}
 		self.payload = decrypted.split_off(meta_len as usize + 4);
 		let meta = byte_ser::from_bytes::<SlatepackEncMetadataBin>(&decrypted)
 			.map_err(|_| Error::SlatepackSer)?
@@ -359,7 +371,9 @@ impl Readable for SlatepackBin {
 					return Err(ser::Error::CorruptedData);
 				}
 			};
-			bytes_to_payload -= len;
+			bytes_to_payload = bytes_to_payload
+				.checked_sub(len)
+				.ok_or(ser::Error::CorruptedData)?;
 			Some(addr)
 		} else {
 			None
@@ -580,7 +594,9 @@ impl Readable for SlatepackEncMetadataBin {
 
 		// optional content flags (2)
 		let opt_flags = reader.read_u16()?;
-		bytes_remaining -= 2;
+		bytes_remaining = bytes_remaining
+			.checked_sub(2)
+			.ok_or(ser::Error::CorruptedData)?;
 
 		let sender = if opt_flags & 0x01 > 0 {
 			let addr = SlatepackAddress::read(reader)?;
@@ -591,7 +607,9 @@ impl Readable for SlatepackEncMetadataBin {
 					return Err(ser::Error::CorruptedData);
 				}
 			};
-			bytes_remaining -= len;
+			bytes_remaining = bytes_remaining
+				.checked_sub(len)
+				.ok_or(ser::Error::CorruptedData)?;
 			Some(addr)
 		} else {
 			None
@@ -601,7 +619,9 @@ impl Readable for SlatepackEncMetadataBin {
 		if opt_flags & 0x02 > 0 {
 			// number of recipients
 			let count = reader.read_u16()?;
-			bytes_remaining -= 2;
+			bytes_remaining = bytes_remaining
+				.checked_sub(2)
+				.ok_or(ser::Error::CorruptedData)?;
 			for _ in 0..count {
 				let addr = SlatepackAddress::read(reader)?;
 				let len = match addr.encoded_len() {
@@ -611,7 +631,9 @@ impl Readable for SlatepackEncMetadataBin {
 						return Err(ser::Error::CorruptedData);
 					}
 				};
-				bytes_remaining -= len;
+				bytes_remaining = bytes_remaining
+					.checked_sub(len)
+					.ok_or(ser::Error::CorruptedData)?;
 				recipients.push(addr);
 			}
 		}
